@@ -415,12 +415,15 @@ fn c08_c09_c03_recv_all_keeps_first_chunk_fds_bounded() {
 // ---- recv_into_iovec on the real code with the recvmsg wrapper stubbed: each descriptor returned by the kernel is
 // wrapped into exactly one File, in order (bounded: <= 3 descriptors per message; 32 is the array size)
 static mut K_NFDS: usize = 0;
+static mut K_FD0: RawFd = 0;
 unsafe fn stub_raw_recvmsg(_fd: RawFd, iovecs: &mut [iovec], in_fds: &mut [RawFd]) -> vmm_sys_util::errno::Result<(usize, usize)> {
     assert!(in_fds.len() == 32);
     let n: usize = kani::any();
     kani::assume(n <= 3);
     K_NFDS = n;
-    if n > 0 { in_fds[0] = 300; }
+    K_FD0 = kani::any();
+    kani::assume(K_FD0 >= 0 && K_FD0 < 300);          // any descriptor number the kernel may hand out, including 0
+    if n > 0 { in_fds[0] = K_FD0; }
     if n > 1 { in_fds[1] = 301; }
     if n > 2 { in_fds[2] = 302; }
     let bytes: usize = kani::any();
@@ -443,7 +446,7 @@ fn c09_recv_into_iovec_wraps_each_fd_once_bounded() {
                 None => assert!(K_NFDS == 0),
                 Some(v) => {
                     assert!(v.len() == K_NFDS && K_NFDS >= 1);
-                    assert!(v[0].as_raw_fd() == 300);
+                    assert!(v[0].as_raw_fd() == K_FD0);
                     if K_NFDS > 1 { assert!(v[1].as_raw_fd() == 301); }
                     if K_NFDS > 2 { assert!(v[2].as_raw_fd() == 302); }
                     assert!(nclosed() == 0);
